@@ -347,6 +347,21 @@ func edgeScenario(kind string, bound int) *vsched.Scenario {
 					v, err := fpgo.AskNewGenerics[int, int](1).AskOnceWithTimeout(actor, d)
 					vsched.Event("first", v, err == nil, err == fpgo.ErrActorAskTimeout)
 					vsched.Event("second", fpgo.AskNewGenerics[int, int](2).AskOnce(actor))
+				case "shared-reply-channel-cap1", "shared-reply-channel-cap2":
+					// scatter-gather: several requests share one caller-supplied buffered reply channel that is smaller than
+					// the number of requests in flight; the collector starts reading late. Every request gets its answer.
+					shared := make(chan int, int(kind[len(kind)-1]-'0'))
+					for p := 1; p <= 4; p++ {
+						p := p
+						vsched.GoNamed(fmt.Sprintf("scatter%d", p), func() {
+							fpgo.AskNewByOptionsGenerics[int, int](p, shared).AskChannel(actor)
+						})
+					}
+					time.Sleep(time.Millisecond)
+					for i := 0; i < 4; i++ {
+						vsched.Event("gathered", <-shared)
+					}
+					vsched.Event("gathered-all")
 				case "ask-object-reused":
 					a := fpgo.AskNewGenerics[int, int](3)
 					for round := 1; round <= 3; round++ {
@@ -358,6 +373,15 @@ func edgeScenario(kind string, bound int) *vsched.Scenario {
 		Check: func(r *vsched.Result) []vsched.Failure {
 			fs := e1.Basic("C13", fam, r, nil)
 			if len(r.Panics) > 0 || len(fs) > 0 {
+				return fs
+			}
+			if strings.HasPrefix(kind, "shared-reply-channel") {
+				for p := 1; p <= 4; p++ {
+					if e1.Count(r, "gathered", answer(p)) != 1 {
+						fs = append(fs, e1.Fail("C13|"+fam+"|lost-reply", "four requests share one reply channel (%s) and the collector reads late: the answer to request %d arrived %d times: %v", kind, p, e1.Count(r, "gathered", answer(p)), r.Events))
+						break
+					}
+				}
 				return fs
 			}
 			if kind == "ask-object-reused" {
@@ -424,7 +448,7 @@ func scenarios(tier string) []*vsched.Scenario {
 	}
 	out = append(out, payloadReplies(0))
 	out = append(out, edgeScenario("timeout-zero", b), edgeScenario("timeout-negative", b), edgeScenario("ask-object-reused", b),
-		edgeScenario("timeout-zero-never", b), edgeScenario("timeout-negative-never", b))
+		edgeScenario("timeout-zero-never", b), edgeScenario("timeout-negative-never", b), edgeScenario("shared-reply-channel-cap1", 1), edgeScenario("shared-reply-channel-cap2", 1))
 	out = append(out, askMethodScenario(2, false, b), askMethodScenario(2, true, b), askMethodScenarioF(2, false, true, b), askMethodScenarioF(2, true, true, b))
 	for _, pool := range []int{0, 1, 2} {
 		for _, lat := range [][]string{{"edge", "now"}, {"now", "edge", "now"}, {"late", "now"}, {"never", "now", "now"}} {
